@@ -49,7 +49,7 @@ Lemma connected_only_via_connect s e : e <> EvConnect true ->
 Proof.
   destruct (connected (ph s)) eqn:Ec; [reflexivity|]. intros Hne Ht. exfalso. revert Ht.
   destruct s as [p q b h en tx tc rt dc nw pa wf wd]. cbn [ph] in Ec.
-  destruct p; try discriminate Ec; destruct e as [c st| | |ok| | | | | | | | | | |]; try (destruct ok; [contradiction|]);
+  destruct p; try discriminate Ec; destruct e as [c st| | |ok| | | | | | | | | | | | | |]; try (destruct ok; [contradiction|]);
     cbn -[Retry.step]; try discriminate;
     unfold_task; cbn -[Retry.step];
     repeat (break_match; cbn -[Retry.step] in *; try discriminate).
@@ -80,7 +80,7 @@ Lemma connected_announced_iff s e :
 Proof.
   split.
   - intros Hin. apply in_listens in Hin. destruct s as [p q b h en tx tc rt dc nw pa wf wd].
-    destruct p; destruct e as [c st| | |ok| | | | | | | | | | |]; try destruct ok; cbn -[Retry.step drop_queue] in Hin;
+    destruct p; destruct e as [c st| | |ok| | | | | | | | | | | | | |]; try destruct ok; cbn -[Retry.step drop_queue] in Hin;
       try (now split); exfalso; revert Hin; crunch;
       rewrite ?listens_app, ?listens_drop, ?listens_cons; cbn -[Retry.step drop_queue];
       rewrite ?listens_app, ?listens_drop, ?listens_cons; cbn -[Retry.step drop_queue]; rewrite ?listens_drop; cbn;
@@ -122,7 +122,7 @@ Lemma step_strategy s e :
      waits l = match v with Some d => [d] | None => [] end).
 Proof.
   cbv zeta. destruct s as [p q b h en tx tc rt dc nw pa wf wd].
-  destruct p; destruct e as [c st| | |ok| | | | | | | | | | |]; try destruct ok; cbn -[Retry.step drop_queue];
+  destruct p; destruct e as [c st| | |ok| | | | | | | | | | | | | |]; try destruct ok; cbn -[Retry.step drop_queue];
     try (left; repeat split; reflexivity);
     crunch;
     rewrite ?listens_app, ?listens_drop, ?listens_cons; cbn -[Retry.step drop_queue]; rewrite ?listens_app, ?listens_drop, ?listens_cons; cbn -[Retry.step drop_queue]; rewrite ?listens_drop; cbn -[Retry.step];
